@@ -2,11 +2,20 @@ import PhyVerif.Driver.Rat
 import PhyVerif.Model.C08
 import PhyVerif.Model.C08b
 import PhyVerif.Spec.C08
+import PhyVerif.Model.C05
 namespace PhyVerif.Driver
 open Lean PhyVerif PhyVerif.C08
 
 def runC08 (op : String) (j : Json) : R Json := do
   let W ← getRat3 j "W"; let chans ← getNatss j "chans"
+  -- `unwhiten: {wmi, scaling}`: the waveforms the accessor averages are the UNWHITENED templates
+  -- (`get_template(t, unwhiten=True)`, model.py:1250-1253), computed here by the C05 model from the stored ones
+  let W ← match j.getObjVal? "unwhiten" with
+    | .ok u => do
+      let wmi ← getRatMat u "wmi"
+      let sc ← fld u "scaling" >>= asRat
+      pure (W.map fun Tw => C05.unwhiten wmi sc Tw none)
+    | .error _ => pure W
   let st ← getNats j "st"; let sc ← getNats j "sc"
   match op with
   | "clusters" =>
